@@ -101,11 +101,64 @@ def compare_swap(tree):
     return R().visit(tree)
 
 
+def return_temp(tree):
+    """`return <expression>` -> `result_tmp = <expression>; return result_tmp` (not for bare names / constants / tuples of names)"""
+    class R(ast.NodeTransformer):
+        def _block(self, body):
+            out = []
+            for st in body:
+                if isinstance(st, ast.Return) and st.value is not None and not isinstance(st.value, (ast.Name, ast.Constant)) \
+                        and not (isinstance(st.value, ast.Tuple) and all(isinstance(e, (ast.Name, ast.Constant)) for e in st.value.elts)):
+                    out.append(ast.copy_location(ast.Assign(targets=[ast.Name(id='result_tmp', ctx=ast.Store())], value=st.value), st))
+                    out.append(ast.copy_location(ast.Return(value=ast.Name(id='result_tmp', ctx=ast.Load())), st))
+                else:
+                    out.append(st)
+            return out
+
+        def generic_visit(self, n):
+            super().generic_visit(n)
+            if isinstance(n, ast.Lambda):
+                return n
+            for fld in ('body', 'orelse', 'finalbody'):
+                b = getattr(n, fld, None)
+                if isinstance(b, list) and b and isinstance(b[0], ast.stmt):
+                    setattr(n, fld, self._block(b))
+            if isinstance(n, ast.Try):
+                for h in n.handlers:
+                    h.body = self._block(h.body)
+            return n
+    for f in list(_functions(tree)):
+        if any(isinstance(x, ast.Name) and x.id == 'result_tmp' for x in ast.walk(f)):
+            continue
+        if any(isinstance(x, (ast.Yield, ast.YieldFrom)) for x in ast.walk(f)):
+            continue
+        R().generic_visit(f)
+    return tree
+
+
+def else_after_return(tree):
+    """`if c: ...; return A` followed by the rest of the block -> the rest moved into an `else:` (when the if has no else yet)"""
+    class R(ast.NodeTransformer):
+        def _block(self, body):
+            for i, st in enumerate(body):
+                if isinstance(st, ast.If) and not st.orelse and st.body and isinstance(st.body[-1], (ast.Return, ast.Raise)) and i + 1 < len(body):
+                    st.orelse = self._block(body[i + 1:])
+                    return body[:i + 1]
+            return body
+
+        def generic_visit(self, n):
+            super().generic_visit(n)
+            if isinstance(n, (ast.FunctionDef, ast.AsyncFunctionDef)):
+                n.body = self._block(n.body)
+            return n
+    return R().visit(tree)
+
+
 def unparse_only(tree):
     return tree
 
 
-TRANSFORMS = {'dot-to-matmul': dot_to_matmul, 'compare-swap': compare_swap, 'rename-locals': rename_locals, 'swap-commute': swap_commute, 'flip-if-else': flip_if_else, 'unparse': unparse_only}
+TRANSFORMS = {'return-temp': return_temp, 'else-after-return': else_after_return, 'dot-to-matmul': dot_to_matmul, 'compare-swap': compare_swap, 'rename-locals': rename_locals, 'swap-commute': swap_commute, 'flip-if-else': flip_if_else, 'unparse': unparse_only}
 
 
 def run_one(args):
